@@ -1,4 +1,37 @@
-import DisjointImpls.Lemmas.Refine
+/-
+  C06 — independence from parameter names, declaration order and bound placement. Property theorems only.
+  At the semantic level a block is (header, set of clauses, Sized requirements): declaration order and inline /
+  where-clause placement are not even representable, and the order of the clauses does not matter (`applies` quantifies
+  over membership). What remains is renaming: see `C06_clause_order_irrelevant` and `C06_same_blocks_same_dispatch`;
+  the canonicalisation that makes renamed blocks syntactically equal is C13's subject and is compared with the real
+  `resolve_non_predicate_params` on every generated variant.
+-/
+import DisjointImpls.Props.C05
 namespace DI
-theorem C06_placeholder : (1 : Nat) = 1 := rfl
+
+/-- the order in which a block's bounds are written (hence inline vs where-clause placement, which only moves a
+    bound inside the list that `TraitBoundsVisitor` collects) is irrelevant to whether the block applies -/
+theorem C06_clause_order_irrelevant (W : World) (b : Block) (cs : List Clause) (h : b.clauses.Perm cs) (q : T) :
+    applies W b q ↔ applies W { b with clauses := cs } q := by
+  constructor
+  · rintro ⟨ρ, h0, h1, h2, h3⟩
+    exact ⟨ρ, h0, h1, fun c hc => h2 c (h.mem_iff.mpr hc), h3⟩
+  · rintro ⟨ρ, h0, h1, h2, h3⟩
+    exact ⟨ρ, h0, h1, fun c hc => h2 c (h.mem_iff.mp hc), h3⟩
+
+/-- likewise for the order of the parameters that must be `Sized` (declaration order of `impl<..>`) -/
+theorem C06_decl_order_irrelevant (W : World) (b : Block) (ps : List String) (h : b.sizedParams.Perm ps) (q : T) :
+    applies W b q ↔ applies W { b with sizedParams := ps } q := by
+  constructor
+  · rintro ⟨ρ, h0, h1, h2, h3⟩
+    exact ⟨ρ, h0, h1, h2, fun p hp => h3 p (h.mem_iff.mpr hp)⟩
+  · rintro ⟨ρ, h0, h1, h2, h3⟩
+    exact ⟨ρ, h0, h1, h2, fun p hp => h3 p (h.mem_iff.mp hp)⟩
+
+/-- two presentations of an invocation whose (canonicalised) blocks are the same up to order are implemented for
+    exactly the same queries, whatever well-formed groupings the macro forms for them -/
+theorem C06_same_blocks_same_dispatch (W : World) (G G' : List Family) (hG : GroupingWF W G) (hG' : GroupingWF W G')
+    (h : (blocksOf G).Perm (blocksOf G')) (q : T) : implemented W G q ↔ implemented W G' q :=
+  C05_dispatch_invariant W G G' hG hG' h q
+
 end DI
